@@ -47,6 +47,25 @@ def deref(f: Func, e: ast.AST, depth: int = 5) -> ast.AST:
     return e
 
 
+def deref_at(f: Func, e: ast.AST, use: ast.AST, depth: int = 5) -> ast.AST:
+    """Flow-sensitive `deref`: follow a local name *as it is read at `use`* (an expression or statement of f) to the
+    expression it holds there -- the single plain assignment that reaches the use.  A name assigned on several
+    branches (`tmp = []; return tmp` ... `tmp = self.m(); return tmp`) is resolved per use, which the
+    flow-insensitive `deref` cannot do."""
+    from ..dataflow import reaching_defs
+
+    while depth > 0 and isinstance(e, ast.Name):
+        ds = reaching_defs(f, e.id, use)
+        if len(ds) == 1 and ds[0].kind in ("assign", "walrus") and ds[0].index is None and ds[0].value is not None and ds[0].stmt is not None:
+            e, use = ds[0].value, ds[0].stmt
+            depth -= 1
+        else:
+            break
+    if isinstance(e, ast.NamedExpr):
+        return deref_at(f, e.value, use, depth - 1) if depth > 0 else e.value
+    return e
+
+
 def ktext(f: Func, e: ast.AST) -> str:
     """Canonical text of a key/value expression: temporaries holding a plain name or attribute
     chain are replaced by what they hold; loop variables and parameters stay themselves."""
